@@ -794,3 +794,55 @@ func TestGowpReplay(t *testing.T) {
 }
 `, "a.Completed()", "a."+name+"()", 1), true
 }
+
+// --- manual refresh: what happens after the last requested refresh (C13, C03) ----------------
+
+func init() {
+	replayHarnesses = append(replayHarnesses,
+		replayHarness{match: prefixMatch("(*Progress).serve/ensures:finalmanual"), pkgDir: ".", render: renderManualPending,
+			class: func(P *Program, ob *Obligation) string { return "manual-refresh-pending" }})
+}
+
+// Manual refresh, one refresh requested and rendered, then a Write that reports success and
+// the completing increment, then Wait. Oracle: the written bytes are in the output.
+func renderManualPending(P *Program, ob *Obligation) (string, bool) {
+	return `package mpb
+
+import (
+	"bytes"
+	"strings"
+	"sync"
+	"testing"
+	"time"
+)
+
+type lockedBuf struct {
+	mu sync.Mutex
+	b  bytes.Buffer
+}
+
+func (l *lockedBuf) Write(p []byte) (int, error) { l.mu.Lock(); defer l.mu.Unlock(); return l.b.Write(p) }
+func (l *lockedBuf) String() string               { l.mu.Lock(); defer l.mu.Unlock(); return l.b.String() }
+
+// Manual refresh: a Write accepted after the last requested refresh must still be emitted
+// before Wait returns (C13), and the last frame must show the final state (C03).
+func TestGowpReplay(t *testing.T) {
+	out := &lockedBuf{}
+	rc := make(chan interface{})
+	p := New(WithOutput(out), WithManualRefresh(rc), WithWidth(40))
+	bar := p.AddBar(2)
+	bar.Increment()
+	rc <- time.Now()
+	time.Sleep(50 * time.Millisecond) // the refresh has been rendered
+	n, err := p.Write([]byte("LOGLINE\n"))
+	if err != nil || n != 8 {
+		t.Fatalf("Write = (%d, %v), want (8, nil)", n, err)
+	}
+	bar.Increment() // completes the bar
+	p.Wait()
+	if !strings.Contains(out.String(), "LOGLINE") {
+		t.Errorf("manual refresh: REPRODUCED: Write reported (8, nil) but its bytes were never emitted; output=%q", out.String())
+	}
+}
+`, true
+}
